@@ -105,3 +105,27 @@ func queryStringsConn(c *sql.Conn, q string) ([]string, error) {
 	}
 	return out, rows.Err()
 }
+
+// MatchLedger returns the indices of ledger entries equal to the image (under
+// the _litestream_seq mask that was in effect when each entry was recorded).
+func (s *Scn) MatchLedger(im *Image) []int {
+	var out []int
+	digests := map[uint32]string{}
+	for i, d := range s.Ledger {
+		r := s.LedgerRoot[i]
+		dg, ok := digests[r]
+		if !ok {
+			dg = Digest(im, r)
+			digests[r] = dg
+		}
+		if dg == d {
+			out = append(out, i)
+		}
+	}
+	return out
+}
+
+// IsTxNotAvailable reports whether a restore error means "no plan reaches that TXID".
+func IsTxNotAvailable(err error) bool {
+	return err != nil && (strings.Contains(err.Error(), "transaction not available") || strings.Contains(err.Error(), "no snapshots available") || strings.Contains(err.Error(), "non-contiguous"))
+}
